@@ -211,7 +211,8 @@ def print_assumptions(pid, cfg):
             continue
         if line.startswith("Closed under the global context") or line.startswith("Axioms:"):
             continue
-        m = re.match(r"^([A-Za-z_][\w.']*)\s*:", line)
+        # an axiom entry starts at column 0 with its qualified name; its type may start on the next (indented) line
+        m = re.match(r"^([A-Za-z_][\w.']*)\s*(:|$)", line)
         if m:
             res[cur].append(m.group(1))
     missing = [t for t in cfg["theorems"] if t not in res]
